@@ -3,7 +3,7 @@ from ..translate import go_translator
 
 SPEC = Spec(
     pid="C03",
-    lean_modules=["OtelVerif.Props.C03", "OtelVerif.Props.C03Shape", "OtelVerif.Props.C03Cfg", "OtelVerif.Lemmas.C03Direct", "OtelVerif.Lemmas.C03Refine"],
+    lean_modules=["OtelVerif.Props.C03", "OtelVerif.Props.C03Shape", "OtelVerif.Props.C03Cfg", "OtelVerif.Lemmas.C03Direct", "OtelVerif.Lemmas.C03Refine", "OtelVerif.Lemmas.C03RefCount"],
     translators=[go_translator("c03shape", "OtelVerif/Gen/C03Shape.lean")],
     extra_audit_modules=["OtelVerif.Lemmas.C03", "OtelVerif.Lemmas.C03Term", "OtelVerif.Lemmas.C03Bridge", "OtelVerif.Lemmas.C03ReplaySound"],
     harnesses=[
